@@ -902,6 +902,10 @@ func TestVF_C17(t *testing.T) {
 						cases = append(cases, vfC17Case{V: v, Target: tgt, Cut: cut, Interval: iv, Backoff: bo, Mode: "silence"})
 					}
 				}
+				// an interval above the 60 s cap of the back-off, with back-off disabled: constant means constant
+				if cut <= 2 && (vi+cut)%4 == 0 {
+					cases = append(cases, vfC17Case{V: v, Target: tgt, Cut: cut, Interval: 75 * time.Second, Backoff: false, Mode: "silence"})
+				}
 				if cut > 0 {
 					cases = append(cases, vfC17Case{V: v, Target: tgt, Cut: cut, Interval: time.Second, Backoff: true, Mode: "restore"})
 					cases = append(cases, vfC17Case{V: v, Target: tgt, Cut: cut, Interval: time.Second, Backoff: true, Mode: "restore-dup"})
